@@ -36,7 +36,7 @@ def run(ctx):
             ctx.say("no ladder for", R.scheme)
             continue
         # only versions whose printed text is delimiter-free are in the property's domain
-        lad = [v for v in s.lad if text.version_text_ok(str(v))]
+        lad = [v for v in s.lad if text.version_ok(v)]
         if len(lad) < 4:
             continue
         s.lad = lad
